@@ -2,7 +2,10 @@
 
 package auth
 
-import "errors"
+import (
+	"errors"
+	"sync/atomic"
+)
 
 // This file is compiled only with `-tags verif`. It gives the verification harness in /verif
 // a fault-injection point for the password-file save and read access to the account list;
@@ -11,15 +14,27 @@ import "errors"
 // ErrVerifInjectedSave is what the injected failing save returns.
 var ErrVerifInjectedSave = errors.New("verif: injected save failure")
 
+// VerifSaveUnlocked counts the saves that ran while a.mu was NOT write-locked. saveFileHandler "must call after
+// auth.mu is locked": the file must be written in the critical section that changed the index, otherwise two overlapping
+// account requests can write their snapshots in the opposite order and the file keeps the older one.
+var VerifSaveUnlocked int64
+
 // VerifSetSaveFail replaces a.saveFile: while fail is true every save returns an error without touching
 // the file (the same substitution grpc_handler_test.go makes); otherwise the real saveFileHandler runs.
+// Either way the save first checks that a.mu is held (VerifSaveUnlocked).
 func (a *Auth) VerifSetSaveFail(fail bool) {
 	a.mu.Lock()
 	defer a.mu.Unlock()
+	inner := a.saveFileHandler
 	if fail {
-		a.saveFile = func() error { return ErrVerifInjectedSave }
-	} else {
-		a.saveFile = a.saveFileHandler
+		inner = func() error { return ErrVerifInjectedSave }
+	}
+	a.saveFile = func() error {
+		if a.mu.TryLock() {
+			a.mu.Unlock()
+			atomic.AddInt64(&VerifSaveUnlocked, 1)
+		}
+		return inner()
 	}
 }
 
